@@ -253,7 +253,7 @@ pub fn run(tier: Tier) -> i32 {
     let mut run = Run::new("C17", tier, "exploration");
     let p = ErrorsPinpoint;
     run.replays("error-fields", &p);
-    run.generated("error-fields", &p, tier.pick(100_000, 4_000_000));
+    run.generated("error-fields", &p, tier.pick(250_000, 4_000_000));
     run.finish(RULE, &["reference model M_fa/M_fq defines the true line, byte and lengths", "the message format itself is not prescribed: only the presence of the values is checked"])
 }
 
